@@ -88,6 +88,8 @@ class UARTDataWord(object):
         offset = 0
         if self.ipts is not None:
             # bytes = struct.unpack_from(">8B", mybuffer)
+            # Decode into a new time stamp object: the previous one may have been handed to other code
+            self.ipts = type(self.ipts)()
             self.ipts.unpack(mybuffer[:8])
             offset += 8
         (self.datalength, _pe_sub) = struct.unpack_from("<HH", mybuffer, offset)
